@@ -21,8 +21,8 @@ const (
 	fErrC  = "C13-func-error-in-condition"      // failing function call in a condition is swallowed
 	fBNeg  = "C13-bare-negation"                // {{ !x }} / :a="!x" print nothing
 	fShowN = "C13-vshow-negation-nonbool"       // v-show="!z" hides for falsy non-bool z while v-if="!z" shows
-	fQVar  = "C13-quoted-arg-resolves-variable" // f("a") passes the value of variable a
-	fQTrim = "C13-quoted-arg-trimmed"           // f(" x ") passes "x"
+	fQVar  = "C13-quoted-arg-reinterpreted"     // f("a") passes the value of variable a; " x " -> "x"; "'q'" -> q
+	fBoolN = "C13-arg-variable-named-like-bool" // f(t) / f(f): a variable named t or f is read as the literal true / false
 )
 
 type gen struct {
@@ -33,7 +33,7 @@ type gen struct {
 func newGen(rec *ev.Rec) *gen {
 	f := kf.Load()
 	g := &gen{rec: rec, open: map[string]bool{}}
-	for _, id := range []string{fCond, fNest, fErrC, fBNeg, fShowN, fQVar, fQTrim} {
+	for _, id := range []string{fCond, fNest, fErrC, fBNeg, fShowN, fQVar, fBoolN} {
 		g.open[id] = f.Open(id)
 	}
 	return g
@@ -103,6 +103,33 @@ func (g *gen) strLit(t *rapid.T, callArg bool) Expr {
 	return Expr{K: "str", V: pick(t, "strlit", lits), Q: pick(t, "quote", []string{"d", "s"})}
 }
 
+// argPaths returns the paths usable as a function argument: while C13-arg-variable-named-like-bool
+// is open, the variables whose names strconv.ParseBool accepts (t, f) are left out.
+func (g *gen) argPaths(paths []string, callArg bool) []string {
+	if !callArg || !g.open[fBoolN] {
+		return paths
+	}
+	var out []string
+	for _, p := range paths {
+		if p != "t" && p != "f" {
+			out = append(out, p)
+		}
+	}
+	if len(out) != len(paths) {
+		g.excluded(fBoolN)
+	}
+	return out
+}
+
+// argPath substitutes a like-typed variable for t / f in argument position (enumerations).
+func (g *gen) argPath(p string) string {
+	if g.open[fBoolN] && (p == "t" || p == "f") {
+		g.excluded(fBoolN)
+		return map[string]string{"t": "m.ok", "f": "m.rate"}[p]
+	}
+	return p
+}
+
 func (g *gen) leaf(t *rapid.T, typ string, litOK, callArg bool) Expr {
 	if litOK && rapid.IntRange(0, 9).Draw(t, "leafkind") < 3 {
 		switch typ {
@@ -120,7 +147,7 @@ func (g *gen) leaf(t *rapid.T, typ string, litOK, callArg bool) Expr {
 	case "int":
 		return Expr{K: "path", V: pick(t, "ipath", intPaths)}
 	case "float":
-		return Expr{K: "path", V: pick(t, "fpath", floatPaths)}
+		return Expr{K: "path", V: pick(t, "fpath", g.argPaths(floatPaths, callArg))}
 	case "string":
 		return Expr{K: "path", V: pick(t, "spath", stringPaths)}
 	case "list":
@@ -128,7 +155,7 @@ func (g *gen) leaf(t *rapid.T, typ string, litOK, callArg bool) Expr {
 	case "map":
 		return Expr{K: "path", V: pick(t, "mpath", mapPaths)}
 	}
-	return Expr{K: "path", V: pick(t, "bpath", boolPaths)}
+	return Expr{K: "path", V: pick(t, "bpath", g.argPaths(boolPaths, callArg))}
 }
 
 func bin(op string, l, r Expr) Expr { return Expr{K: "bin", V: op, A: []Expr{l, r}} }
@@ -138,11 +165,13 @@ func call(f string, a ...Expr) Expr { return Expr{K: "call", V: f, A: a} }
 var callsOf = map[string][][]string{
 	"int":    {{"len", "list"}, {"len", "string"}, {"len", "map"}, {"int", "numstr"}, {"int", "int"}, {"add", "int", "int"}, {"sum", "int", "int", "int"}},
 	"float":  {{"half", "float"}, {"scale", "float", "float"}},
-	"string": {{"upper", "string"}, {"lower", "string"}, {"trim", "string"}, {"string", "int"}, {"string", "float"}, {"string", "string"}, {"greet", "string"}, {"ctxup", "string"}, {"title", "lowstr"}, {"pick", "bool", "string", "string"}},
+	"string": {{"upper", "string"}, {"lower", "string"}, {"trim", "string"}, {"string", "int"}, {"string", "fracfloat"}, {"string", "string"}, {"greet", "string"}, {"ctxup", "string"}, {"title", "lowstr"}, {"pick", "bool", "string", "string"}},
 	"bool":   {{"isBig", "int"}, {"neg", "bool"}},
 }
 
-func (g *gen) callExpr(t *rapid.T, typ string, nonShared bool) Expr {
+// top: the call is the whole expression and so takes the filter path, whose argument handling is
+// the region of C13-quoted-arg-reinterpreted and C13-arg-variable-named-like-bool.
+func (g *gen) callExpr(t *rapid.T, typ string, nonShared, top bool) Expr {
 	var cands [][]string
 	for _, c := range callsOf[typ] {
 		if funcs[c[0]].shared || nonShared {
@@ -158,10 +187,16 @@ func (g *gen) callExpr(t *rapid.T, typ string, nonShared bool) Expr {
 		switch pt {
 		case "numstr":
 			e.A = append(e.A, Expr{K: "path", V: "num"})
+		case "fracfloat": // fractional in every environment (the text of 10.0 is ambiguous)
+			if rapid.IntRange(0, 2).Draw(t, "fraclit") == 0 {
+				e.A = append(e.A, Expr{K: "float", V: pick(t, "fracl", []string{"0.5", "1.5", "2.5", "0.25"})})
+			} else {
+				e.A = append(e.A, Expr{K: "path", V: pick(t, "fracp", g.argPaths([]string{"f", "m.rate"}, top))})
+			}
 		case "lowstr":
 			e.A = append(e.A, Expr{K: "path", V: pick(t, "lowpath", []string{"m.inner.s", "st.In.S", "us[1].name"})})
 		default:
-			e.A = append(e.A, g.leaf(t, pt, true, true))
+			e.A = append(e.A, g.leaf(t, pt, true, top))
 		}
 	}
 	return e
@@ -187,7 +222,7 @@ func (g *gen) expr(t *rapid.T, env map[string]any, typ string, d int, top bool) 
 		return Expr{K: "tern", A: []Expr{sub("bool"), sub(typ), sub(typ)}}
 	}
 	if k == 1 {
-		return g.callExpr(t, typ, nonShared)
+		return g.callExpr(t, typ, nonShared, top)
 	}
 	switch typ {
 	case "int":
@@ -386,18 +421,19 @@ func (g *gen) quoted(t *rapid.T, classes ...string) Arg {
 	case "space":
 		v = pick(t, "space", litSpace)
 	case "pad":
-		if g.open[fQTrim] {
-			g.excluded(fQTrim)
+		if g.open[fQVar] {
+			g.excluded(fQVar)
 			v = pick(t, "space", litSpace)
 		} else {
 			v = pick(t, "pad", litPad)
 		}
 	case "otherquote":
-		if q == "d" {
-			v = pick(t, "oq", []string{"it's", "'q'"})
-		} else {
-			v = pick(t, "oq", []string{`say "hi"`, `"q"`})
+		oq := map[string][]string{"d": {"it's", "x'y'", "'q'"}, "s": {`say "hi"`, `"x"y`, `"q"`}}[q]
+		if g.open[fQVar] {
+			oq = oq[:2] // content wrapped in the other quote style is part of the finding's region
+			g.excluded(fQVar)
 		}
+		v = pick(t, "oq", oq)
 	case "num":
 		v = pick(t, "num", litNum)
 	case "float":
@@ -419,7 +455,7 @@ func (g *gen) argFor(t *rapid.T, pt string) Arg {
 		case 6:
 			return Arg{K: "float", V: pick(t, "flit", []string{"1.5", "0.25", "2.5"})}
 		case 7:
-			return Arg{K: "path", V: pick(t, "ipath", []string{"a", "m.k", "big", "f", "m.rate"})}
+			return Arg{K: "path", V: pick(t, "ipath", g.argPaths([]string{"a", "m.k", "big", "f", "m.rate"}, true))}
 		default:
 			return Arg{K: "path", V: pick(t, "spath", stringPaths)}
 		}
@@ -445,13 +481,13 @@ func (g *gen) argFor(t *rapid.T, pt string) Arg {
 		case 3:
 			return Arg{K: "path", V: pick(t, "npath", []string{"num", "a", "big"})}
 		default:
-			return Arg{K: "path", V: pick(t, "fpath", floatPaths)}
+			return Arg{K: "path", V: pick(t, "fpath", g.argPaths(floatPaths, true))}
 		}
 	case "bool":
 		if rapid.IntRange(0, 1).Draw(t, "bsrc") == 0 {
 			return Arg{K: "bool", V: pick(t, "blit", []string{"true", "false"})}
 		}
-		return Arg{K: "path", V: pick(t, "bpath", boolPaths)}
+		return Arg{K: "path", V: pick(t, "bpath", g.argPaths(boolPaths, true))}
 	}
 	// any: a quoted literal that looks like a number or bool is documented to be "parsed as its
 	// natural type", so only plainly textual contents are used here
@@ -465,7 +501,7 @@ func (g *gen) argFor(t *rapid.T, pt string) Arg {
 	case 4:
 		return Arg{K: "bool", V: pick(t, "blit", []string{"true", "false"})}
 	}
-	return Arg{K: "path", V: pick(t, "anypath", []string{"a", "f", "s", "t", "big", "m.k", "st.Name", "xs[0]"})}
+	return Arg{K: "path", V: pick(t, "anypath", g.argPaths([]string{"a", "f", "s", "t", "big", "m.k", "st.Name", "xs[0]"}, true))}
 }
 
 // fnNames: sorted names of all modelled functions (filled by the init in funcs_test.go).
@@ -546,7 +582,12 @@ func (g *gen) chain(t *rapid.T, env map[string]any, init string, n int, mayEndJS
 
 func pipeCase(envID int, init string, st []Stage, final any) Case {
 	c := Case{Fam: "pipe", Env: envID, Init: init, Stages: st, Pos: pipePos}
-	if s, ok := final.(string); ok && (s == "false" || s == "0") {
+	if s := fmt.Sprint(final); s == "false" || s == "0" {
+		_, isStr := final.(string)
+		_, isJSON := final.(jsonText)
+		if !isStr && !isJSON {
+			return c
+		}
 		// truthiness of the texts "false"/"0" is not documented: the bound attribute is not asserted
 		c.Pos = without(pipePos, posBound)
 	}
@@ -796,7 +837,7 @@ func classify(c Case) (bool, []string) {
 				add(fmt.Sprintf("B:pair %s->%s", src, pt))
 			}
 			if f.variadic {
-				add(fmt.Sprintf("B:variadic extra=%d", len(s.A)-(len(f.params)-2)))
+				add(fmt.Sprintf("B:variadic extra-args=%d", len(s.A)-max(0, len(f.params)-2)))
 			}
 			if f.ctx {
 				add("B:leading-context")
